@@ -358,6 +358,7 @@ void mutexAcquire(void* m, int count) {
 // ---- public kernel API ----
 void kernelInit(const KConfig& cfg) {
   K.cfg = cfg;
+  if (!getenv("SIM_TRACE")) K.cfg.verbose = false;
   K.srng = Rng(hcomb(cfg.seed, 0x5c4ed));
   K.frng = Rng(hcomb(cfg.seed, 0xfa017));
   K.now = 0;
